@@ -95,7 +95,7 @@ Definition from_ymd (f year month day : Z) : dres period :=
   match kind_of f with
   | KReg => Ok (mkP f (gen_reg_from_ymd (month_to_segment f) f year month day))
   | KDaily => dmap (mkP f) (of_opt ErrValue (gen_daily_from_ymd year month day))
-  | KInt => Err ErrAttr
+  | KInt => Err ErrKey       (* IntegerPeriod inherits the static Period.from_ymd(freq, ...): the year is looked up as a frequency *)
   | KNone => Err ErrKey
   end.
 
